@@ -182,6 +182,7 @@ class Sh:
         """every kind of lexeme slid across offsets 1015..1030 of a line (the 1023-byte refill of the scanner)"""
         r = self.rnd
         k, n = self.desc["k"], self.desc["n"]
+        if k == 0: self.crlf_tokens()
         cases = []
         for lx in LEXEMES:
             for off in range(1010, 1032):
@@ -233,6 +234,28 @@ class Sh:
             if self.res["counters"].get("worker_crashes", 0) > CRASH_BUDGET: return
 
 
+    def crlf_tokens(self):
+        """tokens that span physical lines (string literals, block comments): the CRLF text must compile to the program of the LF text"""
+        texts = ['s = "line one\nline two\nline three"; print strlen(s); print s;',
+                 's = "a\n\nb"; print strlen(s);', 'print "x\n" + "y\nz";', 'a = 1 /* comment\nover two\nlines */ + 2; print a;',
+                 'print "tab\there\nnext \\" + "q";', 's = "ends with newline\n"; print strlen(s); t = "\nstarts"; print strlen(t);',
+                 'function f return string is\nbegin\n  return "in\nfunction";\nend;\nprint strlen(f());', 'print "one"\n;\nprint\n"two\nthree"\n;\n']
+        for t in texts:
+            lf = t + "\n"; crlf = lf.replace("\n", "\r\n")
+            for P, R in (("parse", "run"), ("cparse", "crun")):
+                ops = ["new A 0", "%s A P %s" % (P, hx(lf.encode())), "unparse P", "%s A P 1000" % R, "new B 0", "%s B Q %s" % (P, hx(crlf.encode())), "unparse Q", "%s B Q 1000" % R]
+                rr = self.probe.case(ops)
+                self.res["evaluations"] += 1; bump(self.res, "crlf_multiline_token_cases")
+                if rr.crashed:
+                    add_violation(self.res, "C13|crash:%s" % rr.sig, "CRLF text crashed: %s" % rr.sig, {"ops": ops, "report": rr.report[-3000:]}); continue
+                rep = rr.replies
+                if not rep[1].startswith("ok"):
+                    bump(self.res, "crlf_text_not_accepted"); continue
+                oa = rfields(rep[3])[2].get("out"); ob = rfields(rep[7])[2].get("out") if len(rep) > 7 else None
+                if not rep[5].startswith("ok") or rep[2] != rep[6] or oa != ob:
+                    self.viol("program|crlf|multiline-token", "`%s` with CRLF line ends (%s): %s, program text %s, output %r vs %r with LF" % (t[:60], P, rep[5][:60], "same" if rep[2] == rep[6] else "differs", unhx(ob or "-")[:60], unhx(oa or "-")[:60]), {"ops": ops, "source": crlf}); continue
+                self.res["nontrivial"].add(case_hash(["crlfml", t, P]))
+
     def cli(self):
         """the bloc command's own readers (file and stdin): long physical lines, CRLF, vs the library's whole-line delivery"""
         import subprocess, tempfile, shutil, os
@@ -246,6 +269,10 @@ class Sh:
                 # many short statements: their one-line layout is far longer than the 1023-byte read of the file reader
                 k = r.randint(120, 400)
                 stm = ["print %d;" % (i * 7 + it) if r.random() < 0.7 else 'x%d = "s%d"; print x%d;' % (i, i, i) for i in range(k)]
+                # a few long literals / comments so that whatever byte a reader treats specially falls inside a token
+                for j in range(r.randint(1, 4)):
+                    stm.insert(r.randrange(len(stm)), r.choice(['print "%s";' % ("q" * r.randint(20, 90)), 'print %d; // %s' % (j, "c" * 40) if False else 'print strlen("%s");' % ("ab " * r.randint(5, 30)),
+                                                                'print %d /* %s */ + 1;' % (j, "z" * r.randint(5, 60))]))
                 pad = " " * r.choice([0, 1, 2, 3, 5, 11, 17, 1000, 1021, 1022, 1023, 1024])
                 layouts = {"multi": "\n".join(stm) + "\n", "oneline": pad + " ".join(stm) + "\n", "oneline-noeol": pad + " ".join(stm), "crlf": "\r\n".join(stm) + "\r\n",
                            "twolines": pad + " ".join(stm[:k // 2]) + "\n" + " ".join(stm[k // 2:]) + "\n"}
@@ -254,8 +281,10 @@ class Sh:
                 want = unhx(rfields(ref.replies[2])[2].get("out", "-"))
                 for lname, text in layouts.items():
                     fn = os.path.join(work, "p.bloc"); open(fn, "wb").write(text.encode())
-                    for mode in ("file", "stdin"):
-                        cmd = [blocbin, fn] if mode == "file" else [blocbin, "-"]
+                    # third reader: the one behind `include` (the including file holds nothing else)
+                    open(os.path.join(work, "main.bloc"), "w").write('include "p.bloc";\n')
+                    for mode in ("file", "stdin", "include"):
+                        cmd = [blocbin, fn] if mode == "file" else ([blocbin, "-"] if mode == "stdin" else [blocbin, os.path.join(work, "main.bloc")])
                         try:
                             p = subprocess.run(cmd, input=text.encode() if mode == "stdin" else b"", stdout=subprocess.PIPE, stderr=subprocess.PIPE, env=env, cwd=work, timeout=60)
                         except subprocess.TimeoutExpired:
